@@ -386,6 +386,23 @@ CHECKS = {
         design_ref="DESIGN.md 5 C06",
         note=NOTE_COMMON + " With interpolation only the annular detector is compared (the statement promises the window probes); rint ties at half pixels are avoided by the chosen positions. Tolerance 5e-5.",
     ),
+    "C39": dict(
+        text=("Tilt.tla: a tilted propagation through slices dz_1..dz_K is the untilted one shifted by tan(t) * sum(dz) per axis; "
+              "tangents (pixels per Angstrom) and thicknesses are exact rationals so TLC computes the expected pixel shift. "
+              "TiltModel.tla transcribes FresnelPropagator._calculate_array / the slice loop (one phase ramp per slice and tilt source: "
+              "base tilt and each tilt ensemble axis; kernel dimensions built by the reversed walk over the ensemble axes) and TLC "
+              "checks for 6 axis layouts x all tangent assignments from {-1, 0, 2} (quick {-1, 2}) x thickness lists up to 3 (2) "
+              "slices that every member's accumulated slope is the expected shift of the sum of its sources and that kernel "
+              "dimensions follow the ensemble axes. Conformance: 768 scenarios enumerated by TLC (tilt given as base tilt / array of "
+              "pairs / per-axis distributions / distribution + scalar / next to a defocus axis; 1-4 unequal slices; square and "
+              "rectangular grids; integer and fractional pixel shifts; sign; lazy), quick: seeded 60; an asymmetric probe through "
+              "vacuum with and without tilt; TiltTrace.tla decides per ensemble member: decoded integer shift (cross-correlation) = "
+              "the rational computed from the logged tangent and thickness list, tilted == shifted untilted (np.roll / Fourier "
+              "shift), tilted plane wave modulus one, lazy == eager."),
+        technique="TLA+ model of tilt accumulation and kernel axis layout checked by TLC against the property-level spec; TLA+ scenario enumeration; TLC trace validation of tilted-vs-untilted differential runs with exact rational shifts",
+        design_ref="DESIGN.md 5 C39",
+        note=NOTE_COMMON + " Tolerance 5e-5 (float32). The plane-wave modulus clause is weak in abTEM (a tilted PlaneWave has only the k = 0 component, which the ramp leaves unchanged).",
+    ),
 }
 
 NOT_APPLICABLE = {
